@@ -12,6 +12,12 @@ CLAIMED = {
          'each generated definition is run on Float against the real function; the implementation oracle rotates event samples through xStokesAnalysis.',
          'Lean kernel + Mathlib; axioms propext/Classical.choice/Quot.sound; translator (validated every run); Kislat per-bin hand model (C02 correspondence); '
          'float rounding outside the model; Q_ERR/U_ERR are not claimed invariant (they are not).'),
+ 'C05': ('proof', 'Lean 4 theorem livetime_eq_spec about a line-by-line model of fill_livetime, tied by exact differential correspondence on dyadic times',
+         'livetime_eq_spec (the column equals the time since max(previous+dead, GTI start), for every sorted event list in sorted GTIs incl. empty leading/middle/trailing GTIs), '
+         'livetime_total, livetime_nonneg, fillLivetimeW_eq (no negative-index wrap), floor-to-µs lemmas, and two proved counterexamples for the listed findings; the model is compared '
+         'exactly (no tolerance) with xEventList.fill_livetime; header LIVETIME/ONTIME/DEADC checked through write_fits and on real simulations with synthetic GTIs.',
+         'Lean kernel (core only); axioms ⊆ {propext}; the hand-written model and the generators of the correspondence; numpy searchsorted/diff/fancy-assignment semantics; astropy I/O. '
+         'Known findings: GTI gap < dead time, event exactly on a GTI start, int32 LIVETIME overflow.'),
 }
 NOT_YET = 'check not built yet in this round (work in progress; see DESIGN.md section 7 for the planned model and theorems)'
 
